@@ -101,6 +101,12 @@ class CMSSystem(System):
                     for t in (2, 3):
                         cfgs.append(dict(cls="st", width=w, depth_=d, strat=strat, threshold=t, nkeys=3, depth=5 if quick else 6,
                                          amounts=[1, 2], seed=seed, cost=4))
+            # histories with a reload in the middle (custom and default hash)
+            for strat in ("table", "md5"):
+                cfgs.append(dict(cls="st", width=3, depth_=2, strat=strat, threshold=2, nkeys=2, depth=5 if quick else 6, amounts=[1, 2],
+                                 c17_reload=True, seed=seed, cost=4))
+                cfgs.append(dict(cls="hh", width=3, depth_=2, strat=strat, hitters=1, nkeys=3, depth=5 if quick else 6, amounts=[1, 2],
+                                 c17_reload=True, seed=seed, cost=4))
             return cfgs
         shapes = [(w, d) for w in (1, 2, 3) for d in (1, 2, 3)]
         if prop == "C02":
@@ -157,6 +163,8 @@ class CMSSystem(System):
         if cfg["cls"] not in ("hh", "st"):
             evs += [("reload", "bytes"), ("reload", "file")]
             evs.append(("add_alt_long", 0, 1))  # hash list longer than the depth: refused, nothing may change
+        elif cfg.get("c17_reload"):
+            evs += [("reload", "bytes")]
         evs.append(("clear",))
         return evs
 
@@ -201,7 +209,7 @@ class CMSSystem(System):
         if kind == "reload":
             cls = CLASSES[cfg["cls"]]
             if ev[1] == "bytes":
-                r = call(lambda: cls.frombytes(bytes(f), hash_function=hf))
+                r = call(lambda: cls.frombytes(bytes(f), hash_function=hf, **self._load_kwargs(cfg)))
             else:
                 tmp = tempfile.mkdtemp(prefix="vmr")
                 try:
@@ -211,6 +219,10 @@ class CMSSystem(System):
                     shutil.rmtree(tmp, ignore_errors=True)
             if r[0] == "ok":
                 st.impl = r[1]
+                if cfg["cls"] in ("hh", "st"):
+                    # the tables are not part of the format: they start empty again
+                    m["last"] = [None] * len(keys)
+                    m["seen"] = []
                 return ("ok", None)
             return r
         raise ValueError(ev)
@@ -328,6 +340,11 @@ class CMSSystem(System):
             want = {k2: v for k2, v in last.items() if v >= f.threshold}
             if table != want:
                 bad("C17", "st.table_is_keys_at_or_above_threshold", {"expected": repr(want), "table": repr(table), "after": ev})
+            # consequence stated by the property: a key whose true count reaches the threshold is never missing
+            for i in m["seen"]:
+                if m["true"][i] >= f.threshold and keys[i] not in table:
+                    bad("C17", "st.true_count_at_threshold_is_tracked", {"key": repr(keys[i]), "true": m["true"][i],
+                                                                          "threshold": f.threshold, "table": repr(table), "after": ev})
         if "C05" in props:
             self._roundtrip(cfg, post, keys, hf, bad)
         if "C06" in props:
